@@ -293,6 +293,37 @@ def record(ctx: Ctx, rid: int, kind: str, rng: random.Random) -> Optional[dict]:
             if on_outer and abs(info[0][0] - info[2][0]) < 1e-6 * sc.s:
                 if abs(info[1][1] - want[1]) > 1e-6 * sc.s or abs(info[1][0] - info[0][0]) > 1e-6 * sc.s:
                     arcs_ok = False
+    # chained shapes lie on opposite sides of their (planar) interface
+    opposite_ok = True
+    if kind.startswith("chain_") or kind == "ring_chain":
+        for a, b, n in iface:
+            if n == 0:
+                continue
+            va = {i for bi in gidx[a] for i in blocks[bi - 1]}
+            vb = {i for bi in gidx[b] for i in blocks[bi - 1]}
+            shared = sorted(va & vb)
+            if len(shared) < 3:
+                continue
+            c0 = [sum(pos[i][d] for i in shared) / len(shared) for d in range(3)]
+            # plane normal from the shared points (they are coplanar: an end sketch)
+            nrm = None
+            for i in shared[1:]:
+                for j in shared[2:]:
+                    cand = vcross(vsub(pos[i], pos[shared[0]]), vsub(pos[j], pos[shared[0]]))
+                    if vnorm(cand) > 1e-9 * sc.s * sc.s:
+                        nrm = cand
+                        break
+                if nrm is not None:
+                    break
+            if nrm is None:
+                continue
+            # only the layer of vertices next to the interface (elbows bend away further on)
+            def side(vs):
+                near = sorted(vs - set(shared), key=lambda i: vdist(pos[i], c0))[:8]
+                return [vdot(vsub(pos[i], c0), nrm) for i in near]
+            sa, sb = side(va), side(vb)
+            if sa and sb and not ((max(sa) < 0 < min(sb)) or (max(sb) < 0 < min(sa))):
+                opposite_ok = False
     path = os.path.join(ctx.tmp, "c11.bmd")
     write_ok, err_name = True, ""
     try:
@@ -300,7 +331,7 @@ def record(ctx: Ctx, rid: int, kind: str, rng: random.Random) -> Optional[dict]:
     except Exception as err:  # pylint: disable=broad-except
         write_ok, err_name = False, type(err).__name__
     ctx.evaluated(f"{kind}:{len(blocks)}")
-    return {"id": rid, "kind": kind, "blocks": blocks, "jac": jac, "nverts": len(pos), "exp_nverts": exp_nverts, "arcs_ok": arcs_ok,
+    return {"id": rid, "kind": kind, "blocks": blocks, "jac": jac, "nverts": len(pos), "exp_nverts": exp_nverts, "arcs_ok": arcs_ok, "opposite_ok": opposite_ok,
             "write_ok": write_ok, "write_error": err_name, "groups": gidx, "iface": [[a + 1, b + 1, n] for a, b, n in iface]}
 
 
